@@ -6,7 +6,7 @@ and instances are created without / with an explicit tag and given instance-leve
 """
 from mc.engine import hbfs
 from mc.engine.report import Violation
-from mc.engine.seams import Canon
+from mc.engine.seams import Canon, new_model
 
 import numpy as np
 
@@ -67,7 +67,7 @@ class Harness:
 
     def fresh(self):
         w = World()
-        w.model = Core.Model(seed=1)
+        w.model = new_model(seed=1)
 
         class A(Core.Agent):
             pass
@@ -254,13 +254,17 @@ class Harness:
         return (self.refstate(w), w.last)
 
 
+# the cheap legs run once more under the runner's ambient configurations (python -O, other logger levels)
+AMBIENT_LEGS = True
+
+
 def run(ctx):
-    depth = 3 if ctx.tier == 'quick' else 4
+    depth = 2 if ctx.small else 3 if ctx.tier == 'quick' else 4
     h = Harness()
     r = hbfs.explore(ctx, h, 'hierarchy', max_depth=depth, procs=ctx.procs)
     ctx.leg('hierarchy', **r)
     ctx.caps.append(f'hierarchy: depth bound {depth} (all histories up to that depth covered)')
-    if ctx.violations:
+    if ctx.violations or ctx.small:
         return
     # a reduced alphabet (three classes, one component type) closes: every reachable state, at any depth
     h2 = Harness(['A', 'A1', 'B'], ('X',), subclassing=False)
